@@ -88,7 +88,7 @@ class RcFnTr(FnTr):
         self.u.enter()
         rsfront._expansion_counter[0] = 0
         stmts, tail = rsfront.parse_body(fn.body, self.u.macros)
-        self.lines, self.scope, self.outs = [], Scope(), []
+        self.lines, self.scope, self.outs, self.out_vars = [], Scope(), [], {}
         self.rng, self.rng_fallible, self.direct = None, False, None
         gen = " ".join(t[1] for t in (fn.generics or [])) + " , " + self.u.generics
         body_text = " ".join(t[1] for t in fn.body)
@@ -103,11 +103,19 @@ class RcFnTr(FnTr):
                 self.rng = Var(n, ("named", "@rng"), lname(n)); self.scope.declare(n, self.rng)
             elif kind == "direct":
                 self.direct = Var(n, ("named", "@direct"), lname(n), mutref=True); self.scope.declare(n, self.direct)
-                self.outs.append(n); rparts.append("σ")
+                self.outs.append(n); rparts.append("σ"); self.out_vars[n] = self.direct
             elif kind in ("bytes", "array"):
                 v = Var(n, ty, lname(n), mutref=mr); self.scope.declare(n, v)
+                if kind == "bytes" and mr:
+                    # the length of a slice never changes: it is read once (a `copy_from_slice` of the wrong length is a panic)
+                    v.len_name = f"{lname(n)}_len"
+                    self.emit(f"let {v.len_name} := {lname(n)}.length;")
                 if mr:
                     self.outs.append(n); rparts.append("List U8" if kind == "bytes" else f"Array (BitVec {INT[ty[1]]})")
+                    self.out_vars[n] = v
+            elif kind == "plain" and mr:
+                v = Var(n, ty, lname(n), mutref=True); self.scope.declare(n, v)
+                self.outs.append(n); rparts.append(lean_ty(ty)); self.out_vars[n] = v
             else:
                 self.scope.declare(n, Var(n, ty, lname(n)))
             params += texts
@@ -173,8 +181,9 @@ class RcFnTr(FnTr):
             out.append(self.direct.name)
         text = repr(blk)
         for n in self.outs:
-            v = self.scope.get(n)
-            if v is not None and v.ty == ("slice", "u8") and n not in out and ("copy_from_slice" in text or "'call'" in text):
+            v = self.out_vars.get(n)
+            if v is not None and v.ty == ("slice", "u8") and v.name not in out and self.scope.get(n) is v and \
+                    ("copy_from_slice" in text or "'call'" in text):
                 out.append(n)
         return out
 
@@ -192,7 +201,7 @@ class RcFnTr(FnTr):
             if d is not None:
                 return d
             if v.ty == ("slice", "u8") and v.elems is None:
-                return DynView(v, "0", f"{v.lean}.length")
+                return DynView(v, "0", getattr(v, "len_name", None) or f"{v.lean}.length")
             return None
         if e[0] == "index" and e[2][0] == "range":
             d = self.dyn_of(e[1])
@@ -228,7 +237,7 @@ class RcFnTr(FnTr):
             return t
         d = self.dyn_of(e)
         if d is not None:
-            if d.off == "0" and d.len == f"{d.base.lean}.length":
+            if d.off == "0" and d.len in (f"{d.base.lean}.length", getattr(d.base, "len_name", None)):
                 return d.base.lean
             return f"List.take {Val(d.len, None).atom()} (List.drop {Val(d.off, None).atom()} {d.base.lean})"
         v = self.expr(e)
@@ -241,7 +250,7 @@ class RcFnTr(FnTr):
     def splice_into(self, d, src):
         """`view.copy_from_slice(src)`: (a length mismatch is a panic in Rust: not this tie's subject)"""
         b = d.base
-        if d.off == "0" and d.len == f"{b.lean}.length":
+        if d.off == "0" and d.len in (f"{b.lean}.length", getattr(b, "len_name", None)):
             self.emit(f"let {b.lean} := splice {b.lean} 0 {Val(src, None).atom()};")
         else:
             self.emit(f"let {b.lean} := splice {b.lean} {Val(d.off, None).atom()} {Val(src, None).atom()};")
@@ -538,7 +547,7 @@ class RcFnTr(FnTr):
         if sig["ret"] is not None:
             rt = sig["ret"]
             if rt == ("named", "(usize,usize)"):
-                rt = ("tuple", ["nat", "nat"])
+                rt = ("tuple", ("nat", "nat"))
             res = Val(self.proj(t, 0, ncomp), rt); k = 1
         for d in backs:
             self.splice_into(d, self.proj(t, k, ncomp)); k += 1
@@ -556,7 +565,7 @@ class RcFnTr(FnTr):
                         raise Unsupported("fill_bytes / try_fill_bytes does not match the result type")
                     self.stmts(stmts[:i])
                     d = self.dyn_of(e[3][0])
-                    if d is None or d.off != "0" or d.len != f"{d.base.lean}.length":
+                    if d is None or d.off != "0" or d.len not in (f"{d.base.lean}.length", getattr(d.base, "len_name", None)):
                         raise Unsupported("source filled into something other than a whole local buffer")
                     bs, er, rng, buf = self.fresh("bytes"), self.fresh("err"), self.rng.lean, d.base.lean
                     n = f"{buf}.length"
@@ -684,9 +693,40 @@ def _read_into(w):
             f"intro src dst h\n  unfold Ext.RandCore.read_u{w}_into readU{w}s\n  rw [Nat.min_eq_left (by omega)]\n"
             f"  exact foldl_wr_range (le{w}At src) dst")
 
+PROOF_FVC = """intro w size toLE src dest hs hlen
+  unfold Ext.RandCore.fill_via_chunks fillViaChunks
+  simp only [Nat.zero_add, Nat.sub_zero]
+  have hk : min (dest.length / size) src.length ≤ src.length := Nat.min_le_right _ _
+  rw [foldl_splice_words size toLE hlen src dest _ hk]
+  generalize hK : min (dest.length / size) src.length = K at hk ⊢
+  have hB : (List.flatMap toLE (List.take K src)).length = K * size := by
+    have : ∀ (l : List (BitVec w)), (l.flatMap toLE).length = l.length * size := by
+      intro l; induction l with
+      | nil => simp
+      | cons x xs ih => simp [List.flatMap_cons, hlen, ih, Nat.succ_mul]; omega
+    rw [this, List.length_take, Nat.min_eq_left hk]
+  by_cases hlt : K < src.length
+  · have hKd : K = dest.length / size := by omega
+    have hg : src.getD K 0 = src[K] := by simp [List.getD, hlt]
+    rw [List.drop_eq_getElem_cons hlt]
+    simp only [hlt, decide_true, if_true, gt_iff_lt, decide_eq_true_eq, hg]
+    by_cases hn : 0 < dest.length % size
+    · have hx : (List.take (dest.length % size) (toLE src[K])).length = dest.length % size := by
+        rw [List.length_take, hlen]; exact Nat.min_eq_left (Nat.le_of_lt (Nat.mod_lt _ hs))
+      simp only [hn, if_true]
+      rw [← hKd, ← hB, splice_append, hx, List.drop_drop, hB]
+    · simp only [hn, if_false]
+  · have hd : List.drop K src = [] := List.drop_eq_nil_of_le (by omega)
+    simp only [hlt, decide_false, Bool.false_eq_true, if_false, hd]"""
+
 RC_THEOREMS = {
     "RandCore": {
         "read_u32_into": _read_into(32), "read_u64_into": _read_into(64),
+        "fill_via_chunks": ("∀ {w : Nat} (size : Nat) (toLE : BitVec w → List U8) (src : List (BitVec w)) (dest : List U8), "
+                            "0 < size → (∀ x, (toLE x).length = size) → Ext.RandCore.fill_via_chunks size toLE src dest = "
+                            "(((fillViaChunks size toLE src dest.length).1, (fillViaChunks size toLE src dest.length).2.1), "
+                            "(fillViaChunks size toLE src dest.length).2.2 ++ dest.drop (fillViaChunks size toLE src dest.length).2.1)",
+                            ["C05", "C14"], PROOF_FVC),
         "next_u64_via_u32": ("∀ {σ : Type} (g : Direct σ) (s : σ), Ext.RandCore.next_u64_via_u32 g s = nextU64ViaU32 g.nextU32 s", ["C05"],
                              "intros; rfl"),
         "fill_bytes_via_next": ("∀ {σ : Type} (g : Direct σ) (fuel : Nat) (s : σ) (dest : List U8), dest.length / 8 ≤ fuel → "
@@ -733,3 +773,265 @@ def theorems(u, done):
             th.append((f"{u.name}.{fn}", t[0], t[1], fn))
             proofs[f"{u.name}.{fn}"] = t[2]
     return th, proofs
+
+# ------------------------------------------------------------------ iterators over slices (fill_via_chunks, seed_from_u64)
+# An iterator is a translator-level object (never a Lean value) with an explicit position held in a Lean variable:
+#   chunks : `buf.chunks_exact_mut(size)` — view of the buffer, chunk size, number of chunks consumed `k`; `count = len / size`;
+#            `into_remainder()` is the view (off + count * size, len % size) whatever was consumed;
+#   words  : `src.iter()` on a word list — position `p`;
+#   zip    : `a.by_ref().zip(b.by_ref())` — `len()` is the minimum of what is left; `for_each` runs that many times, advances `b`
+#            by exactly that (a is polled first: when a is exhausted b is not touched; when b is exhausted it stays exhausted) and
+#            leaves `a` at an unspecified position (a may have lost one more chunk): afterwards only `a.into_remainder()` is accepted.
+def _contains_return(x):
+    if isinstance(x, tuple):
+        if x and x[0] == "return":
+            return True
+        if x and x[0] in ("closure", "fn"):
+            return False
+        return any(_contains_return(y) for y in x)
+    if isinstance(x, list):
+        return any(_contains_return(y) for y in x)
+    return False
+
+def _desugar_iflet(x):
+    """for the analysis of assigned variables only: `if let Some(v) = e { A } else { B }` as `if e { let v = 0; A } else { B }`"""
+    if isinstance(x, tuple):
+        if x and x[0] == "iflet":
+            _, ctor, var, e, th, el = x
+            th2 = ([("let", ("name", var), False, None, ("lit", 0, None))] + _desugar_iflet(th[0]), _desugar_iflet(th[1]))
+            return ("if", _desugar_iflet(e), th2, _desugar_iflet(el) if el is not None else None)
+        return tuple(_desugar_iflet(y) for y in x)
+    if isinstance(x, list):
+        return [_desugar_iflet(y) for y in x]
+    return x
+
+class RcIterMixin:
+    pass
+
+def _install():
+    C = RcFnTr
+    base_assigned, base_mcall, base_declare_let, base_body, base_for = C.assigned, C.mcall, C.declare_let, C.body_to_lean, C.for_stmt
+
+    def assigned(self, stmts, tail, declared=None):
+        out = base_assigned(self, _desugar_iflet(stmts), _desugar_iflet(tail), declared)
+        # iterator positions are variables too
+        text = repr((stmts, tail))
+        sc = self.scope
+        while sc:
+            for n, v in sc.vars.items():
+                it = getattr(v, "iter", None)
+                if it is not None and it.get("pos") and n not in out and self.mentions((stmts, tail), n):
+                    out.append(n)
+            sc = sc.parent
+        return out
+    C.assigned = assigned
+
+    base_tuple_of = C.tuple_of
+    def tuple_of(self, names):
+        plain, extra = [], []
+        for n in names:
+            v = self.scope.get(n) if n != "self" else None
+            it = getattr(v, "iter", None) if v is not None else None
+            if it is not None:
+                if it.get("pos"):
+                    extra.append(it["pos"])
+            else:
+                plain.append(n)
+        t = base_tuple_of(self, plain)
+        if not extra:
+            return t
+        parts = ([] if t == "()" else [t[1:-1] if t.startswith("(") else t]) + extra
+        return parts[0] if len(parts) == 1 else "(" + ", ".join(parts) + ")"
+    C.tuple_of = tuple_of
+
+    def iter_of(self, e):
+        while e[0] in ("paren", "ref") or (e[0] == "mcall" and e[2] == "by_ref" and not e[3]):
+            e = e[2] if e[0] == "ref" else e[1]
+        if e[0] == "path" and len(e[1]) == 1:
+            v = self.lookup(e[1][0])
+            if v is not None and getattr(v, "iter", None) is not None:
+                return v
+        return None
+    C.iter_of = iter_of
+
+    def declare_let(self, s):
+        _, pat, mut, ty, init = s
+        i0 = init
+        while i0 is not None and i0[0] == "paren":
+            i0 = i0[1]
+        if pat[0] == "name" and i0 is not None and i0[0] == "mcall":
+            n = pat[1]
+            if i0[2] in ("chunks_exact_mut", "chunks_exact") and len(i0[3]) == 1:
+                d = self.dyn_of(i0[1])
+                if d is not None:
+                    size = self.expr(i0[3][0], "nat")
+                    k = self.fresh(lname(n) + "_k")
+                    self.emit(f"let {k} := 0;")
+                    if not re.match(r"^\w+$", d.len):
+                        ln = self.fresh(lname(n) + "_len")
+                        self.emit(f"let {ln} := {d.len};")
+                        d = DynView(d.base, d.off, ln)
+                    v = Var(n, None, None)
+                    v.iter = dict(kind="chunks", view=d, size=size.atom(), pos=k, spent=False)
+                    self.scope.declare(n, v)
+                    return
+            if i0[2] == "iter" and not i0[3]:
+                r = i0[1]
+                while r[0] == "paren":
+                    r = r[1]
+                sv = self.lookup(r[1][0]) if r[0] == "path" and len(r[1]) == 1 else None
+                if sv is not None and isinstance(sv.ty, tuple) and sv.ty[0] == "wlist":
+                    p = self.fresh(lname(n) + "_p")
+                    self.emit(f"let {p} := 0;")
+                    v = Var(n, None, None)
+                    v.iter = dict(kind="words", src=sv, pos=p)
+                    self.scope.declare(n, v)
+                    return
+            if i0[2] == "zip" and len(i0[3]) == 1:
+                a, b = self.iter_of(i0[1]), self.iter_of(i0[3][0])
+                if a is not None and b is not None and a.iter["kind"] == "chunks" and b.iter["kind"] == "words":
+                    v = Var(n, None, None, const=True)
+                    v.iter = dict(kind="zip", a=a, b=b, pos=None)
+                    self.scope.declare(n, v)
+                    return
+            if i0[2] == "into_remainder" and not i0[3]:
+                it = self.iter_of(i0[1])
+                if it is not None and it.iter["kind"] == "chunks":
+                    d, sz = it.iter["view"], it.iter["size"]
+                    ln = Val(d.len, None).atom()
+                    off = f"{ln} / {sz} * {sz}" if d.off == "0" else f"{d.off} + {ln} / {sz} * {sz}"
+                    self.new_dyn(n, d.base, off, f"{ln} % {sz}")
+                    return
+        return base_declare_let(self, s)
+    C.declare_let = declare_let
+
+    def remaining(self, it):
+        if it.iter["kind"] == "chunks":
+            if it.iter["spent"]:
+                raise Unsupported("use of a chunk iterator after a zip consumed it")
+            d = it.iter["view"]
+            return f"({Val(d.len, None).atom()} / {it.iter['size']} - {it.iter['pos']})"
+        return f"({it.iter['src'].lean}.length - {it.iter['pos']})"
+    C.remaining = remaining
+
+    def mcall(self, e, want):
+        _, recv, name, args = e
+        it = self.iter_of(recv) if recv[0] in ("path", "paren", "ref", "mcall") else None
+        if it is not None:
+            k = it.iter["kind"]
+            if name == "len" and not args and k == "zip":
+                return Val(f"min {self.remaining(it.iter['a'])} {self.remaining(it.iter['b'])}", "nat")
+            if name == "for_each" and k == "zip" and len(args) == 1 and args[0][0] == "closure" and \
+                    len([q for q in args[0][1] if q not in ("(", ")")]) == 2:
+                a, b = it.iter["a"], it.iter["b"]
+                n = f"min {self.remaining(a)} {self.remaining(b)}"
+                j = self.fresh("j") + "'"
+                pa, pb = [q for q in args[0][1] if q not in ("(", ")")]
+                d, sz = a.iter["view"], a.iter["size"]
+                buf = d.base
+                def f():
+                    cv = Var(pa, ("slice", "u8"), None)
+                    off = f"({a.iter['pos']} + {j}) * {sz}" if d.off == "0" else f"{d.off} + ({a.iter['pos']} + {j}) * {sz}"
+                    cv.dyn = DynView(buf, off, sz)
+                    self.scope.declare(pa, cv)
+                    self.scope.declare(pb, Var(pb, b.iter["src"].ty[1], f"({b.iter['src'].lean}.getD ({b.iter['pos']} + {j}) 0)", const=True))
+                    body = args[0][2]
+                    n0 = len(self.lines)
+                    if body[0] == "block":
+                        self.stmts(body[1])
+                        if body[2] is not None:
+                            self.stmt(("expr", body[2]), [])
+                    else:
+                        self.stmt(("expr", body), [])
+                    return buf.lean
+                self.scope.declare(j, Var(j, "nat", j, const=True))
+                lines, t = self.sub(f)
+                self.emit(f"let {buf.lean} := List.foldl (fun ({buf.lean}) {j} => {self.render(lines, t)}) {buf.lean} (List.range ({n}));")
+                t2 = self.fresh("e")
+                self.emit(f"let {t2} := {b.iter['pos']} + {n};")
+                self.emit(f"let {b.iter['pos']} := {t2};")
+                a.iter["spent"] = True
+                return Val("()", "unit")
+            raise Unsupported(f"method .{name}() on an iterator")
+        return base_mcall(self, e, want)
+    C.mcall = mcall
+
+    def for_stmt(self, s):
+        _, var, it, body = s
+        i0 = it
+        while i0[0] in ("ref", "paren"):
+            i0 = i0[2] if i0[0] == "ref" else i0[1]
+        itv = self.iter_of(i0) if i0[0] == "path" else None
+        if itv is not None and itv.iter["kind"] == "chunks" and var[0] == "name":
+            # `for chunk in &mut iter { … }`: all the chunks that are left
+            n = self.remaining(itv)
+            d, sz = itv.iter["view"], itv.iter["size"]
+            j = self.fresh("j") + "'"
+            names = [x for x in self.assigned(body[0], body[1], declared={var[1]}) if x != itv.name]
+            if d.base.name not in names:
+                names.append(d.base.name)
+            def f():
+                cv = Var(var[1], ("slice", "u8"), None)
+                off = f"({itv.iter['pos']} + {j}) * {sz}" if d.off == "0" else f"{d.off} + ({itv.iter['pos']} + {j}) * {sz}"
+                cv.dyn = DynView(d.base, off, sz)
+                self.scope.declare(var[1], cv)
+                self.stmts(body[0])
+                if body[1] is not None:
+                    self.stmt(("expr", body[1]), [])
+                self.end_scope()
+                return self.tuple_of(names)
+            self.scope.declare(j, Var(j, "nat", j, const=True))
+            lines, t = self.sub(f)
+            pat = self.tuple_of(names)
+            bp = pat if pat.startswith("(") else f"({pat})"
+            self.emit(f"let {pat} := List.foldl (fun {bp} {j} => {self.render(lines, t)}) {pat} (List.range {n});")
+            t2 = self.fresh("e")
+            self.emit(f"let {t2} := {itv.iter['pos']} + {n};")
+            self.emit(f"let {itv.iter['pos']} := {t2};")
+            return
+        return base_for(self, s)
+    C.for_stmt = for_stmt
+
+    def body_to_lean(self, stmts, tail, ret_ty, selfkind):
+        """sequencing with `return` at any depth: `if c { A } else { B }; R` with a return inside is `if c then A;R else B;R`"""
+        for i, s in enumerate(stmts):
+            if s[0] == "expr" and s[1][0] in ("if", "iflet") and _contains_return(s[1]):
+                self.stmts(stmts[:i])
+                e = s[1]
+                rest = stmts[i + 1:]
+                if e[0] == "if":
+                    cv = self.expr(e[1], "bool").lean
+                    th, el, bind = e[2], e[3], None
+                else:
+                    _, ctor, var, ex, th, el = e
+                    m = ex
+                    while m[0] == "paren":
+                        m = m[1]
+                    itv = self.iter_of(m[1]) if m[0] == "mcall" and m[2] == "next" and not m[3] else None
+                    if ctor != "Some" or itv is None or itv.iter["kind"] != "words":
+                        raise Unsupported("if let")
+                    p, src = itv.iter["pos"], itv.iter["src"]
+                    cv = f"decide ({p} < {src.lean}.length)"
+                    bind = (var, src, p)
+                def seq(blk, binding):
+                    def g():
+                        if binding is not None:
+                            var, src, p = binding
+                            x = self.fresh(lname(var))
+                            self.emit(f"let {x} := {src.lean}.getD {p} 0;")
+                            t2 = self.fresh("e")
+                            self.emit(f"let {t2} := {p} + 1;"); self.emit(f"let {p} := {t2};")
+                            self.scope.declare(var, Var(var, src.ty[1], x, const=True))
+                        b0 = blk[0] if blk is not None else []
+                        b1 = blk[1] if blk is not None else None
+                        if b1 is not None:
+                            b0 = b0 + [("expr", b1)]
+                        return self.body_to_lean(b0 + rest, tail, ret_ty, selfkind)
+                    return self.sub(g)
+                l1, r1 = seq(th, bind)
+                l2, r2 = seq(el, None)
+                return f"if {cv} then {self.render(l1, r1)} else {self.render(l2, r2)}"
+        return base_body(self, stmts, tail, ret_ty, selfkind)
+    C.body_to_lean = body_to_lean
+
+_install()
